@@ -9,26 +9,26 @@ use std::io::{BufRead, Write};
 use std::sync::atomic::{AtomicBool, AtomicU64, Ordering::SeqCst};
 use std::sync::{Arc, Mutex};
 
-thread_local! { static REACHED: Cell<bool> = Cell::new(false); }
+thread_local! { static REACHED: Cell<u8> = Cell::new(0); }
 
 struct Dbl { inside: Arc<AtomicU64>, drops: Arc<AtomicU64>, late: Arc<AtomicBool> }
 impl Dbl {
-    fn enter(&self) {
+    fn enter(&self, method: u8) {
         if self.drops.load(SeqCst) != 0 { self.late.store(true, SeqCst); }
         self.inside.fetch_add(1, SeqCst);
         metrics::__verif::yield_point(2006);
         self.inside.fetch_sub(1, SeqCst);
-        REACHED.with(|r| r.set(true));
+        REACHED.with(|r| r.set(method));
     }
 }
 impl Drop for Dbl { fn drop(&mut self) { self.drops.fetch_add(1, SeqCst); } }
 impl Recorder for Dbl {
-    fn describe_counter(&self, _: KeyName, _: Option<Unit>, _: SharedString) { self.enter() }
-    fn describe_gauge(&self, _: KeyName, _: Option<Unit>, _: SharedString) { self.enter() }
-    fn describe_histogram(&self, _: KeyName, _: Option<Unit>, _: SharedString) { self.enter() }
-    fn register_counter(&self, _: &Key, _: &Metadata<'_>) -> Counter { self.enter(); Counter::noop() }
-    fn register_gauge(&self, _: &Key, _: &Metadata<'_>) -> Gauge { self.enter(); Gauge::noop() }
-    fn register_histogram(&self, _: &Key, _: &Metadata<'_>) -> Histogram { self.enter(); Histogram::noop() }
+    fn describe_counter(&self, _: KeyName, _: Option<Unit>, _: SharedString) { self.enter(1) }
+    fn describe_gauge(&self, _: KeyName, _: Option<Unit>, _: SharedString) { self.enter(3) }
+    fn describe_histogram(&self, _: KeyName, _: Option<Unit>, _: SharedString) { self.enter(5) }
+    fn register_counter(&self, _: &Key, _: &Metadata<'_>) -> Counter { self.enter(2); Counter::noop() }
+    fn register_gauge(&self, _: &Key, _: &Metadata<'_>) -> Gauge { self.enter(4); Gauge::noop() }
+    fn register_histogram(&self, _: &Key, _: &Metadata<'_>) -> Histogram { self.enter(6); Histogram::noop() }
 }
 
 fn emit(rec: &dyn Recorder, k: usize) {
@@ -64,9 +64,11 @@ fn run_case(line: &str) -> String {
             let w = wrapped.clone();
             threads.push(Box::new(move || {
                 for k in 0..n {
-                    REACHED.with(|r| r.set(false));
+                    REACHED.with(|r| r.set(0));
                     emit(&*w, k + tid);
-                    let tok = if REACHED.with(|r| r.get()) { "X" } else { "I" };
+                    // the wrapped recorder must be entered through the SAME method the wrapper was called with
+                    let m = REACHED.with(|r| r.get());
+                    let tok = if m == 0 { "I" } else if m as usize == (k + tid) % 6 + 1 { "X" } else { "M" };
                     results.lock().unwrap()[tid].push(tok.to_string());
                 }
             }));
@@ -104,6 +106,7 @@ fn run_case(line: &str) -> String {
 // Free-running stress (no scheduler): emitters hammer the wrapper while the owner recovers or drops
 // the handle; judged by the property itself.  `STRESS <emitters> <emissions> <mode R|D>`.
 static RECOVERED: AtomicBool = AtomicBool::new(false);
+static WRONG: AtomicU64 = AtomicU64::new(0);
 fn stress(emitters: usize, n: usize, mode: &str) -> String {
     metrics::__verif::set_callback(None);
     RECOVERED.store(false, SeqCst);
@@ -123,9 +126,11 @@ fn stress(emitters: usize, n: usize, mode: &str) -> String {
             st.fetch_add(1, SeqCst);
             for k in 0..n {
                 let before = RECOVERED.load(SeqCst);
-                REACHED.with(|r| r.set(false));
+                REACHED.with(|r| r.set(0));
                 emit(&*w, k + t);
-                let hit = REACHED.with(|r| r.get());
+                let m = REACHED.with(|r| r.get());
+                if m != 0 && m as usize != (k + t) % 6 + 1 { WRONG.fetch_add(1, SeqCst); }
+                let hit = m != 0;
                 if hit { re.fetch_add(1, SeqCst); if before { ra.fetch_add(1, SeqCst); } }
                 // an emission that completed before the owner even started must have reached the recorder
                 if !hit && !OWNER_STARTED.load(SeqCst) { ib.fetch_add(1, SeqCst); }
@@ -152,6 +157,7 @@ fn stress(emitters: usize, n: usize, mode: &str) -> String {
     for h in hs { let _ = h.join(); }
     OWNER_STARTED.store(false, SeqCst);
     if late.load(SeqCst) { bad.push("a call entered the recorder after it had been dropped".into()); }
+    if WRONG.swap(0, SeqCst) != 0 { bad.push("an emission reached the wrapped recorder through a different method than the one called".into()); }
     if reached_after.load(SeqCst) != 0 { bad.push(format!("{} emission(s) that started after into_inner returned reached the recorder", reached_after.load(SeqCst))); }
     if inert_before.load(SeqCst) != 0 { bad.push(format!("{} emission(s) completed before recovery/drop began were inert", inert_before.load(SeqCst))); }
     let d = drops.load(SeqCst);
